@@ -464,6 +464,8 @@ scan(struct token *t)
 	scanner->sawspace = false;
 	for (;;) {
 		t->kind = scankind(scanner, &t->loc);
+		if (t->kind == TEOF && ferror(scanner->file))
+			fatal("read %s:", scanner->loc.file);
 		if (t->kind != TEOF || !scanner->next)
 			break;
 		next = scanner->next;
